@@ -1,6 +1,10 @@
 import AFDriver.Wire
 import AFModel.FloatOps
 import AFModel.Passing
+import AFModel.WidthCfg
+import AFModel.PassRoutes
+import AFModel.PassPlace
+import AFModel.Generated.C12
 
 open Lean (Json)
 open AF AF.Wire
@@ -16,7 +20,82 @@ def jsonOfPD (d : PD Float) : Json :=
   Json.mkObj [("kind", d.kind), ("lo", hexOfFloat d.lo), ("hi", hexOfFloat d.hi),
     ("mean", hexOfFloat d.mean), ("sigma", hexOfFloat d.sigma)]
 
+partial def clsTreeOfJson (j : Json) : Except String ClsTree := do
+  let p ← getStr j "p"
+  let bs ← (← getArr j "b").toList.mapM clsTreeOfJson
+  pure (.node p.toList bs)
+
+def jsonOfCVal : CVal Float → Json
+  | .wm rel v => Json.mkObj [("k", "wm"), ("relative", rel), ("value", hexOfFloat v)]
+  | .lim lo hi => Json.mkObj [("k", "lim"), ("lo", hexOfFloat lo), ("hi", hexOfFloat hi)]
+  | .other => Json.mkObj [("k", "other")]
+
+/-- the configuration chain: names of generated tables (`"empty"` = a directory without prior files) -/
+def chainOfJson (j : Json) : Except String (List (Config Float)) := do
+  (← getArr j "chain").toList.mapM fun n => do
+    let n ← n.getStr?
+    if n == "empty" then pure []
+    else match AF.WidthCfg.Generated.named.lookup n with
+      -- sorted once per request (`callCfg_presorted`: same answers; sorting a sorted table is linear)
+      | some c => pure (sortByLen c)
+      | none => throw s!"unknown configuration table {n}"
+
+def placeOfJson (j : Json) : Except String (Place Float) := do
+  let cls ← clsTreeOfJson (← j.getObjVal? "cls")
+  let attr ← getStr j "attr"
+  let own : Option (Bool × Float) := match j.getObjVal? "own" with
+    | .ok o => match getBool o "relative", getFloat o "value" with
+      | .ok r, .ok v => some (r, v)
+      | _, _ => none
+    | _ => none
+  pure { cls := cls, attr := attr.toList, own := own }
+
+def jsonOfFound {α} (f : α → Json) : Found α → Json
+  | .found a => Json.mkObj [("k", "found"), ("v", f a)]
+  | .missing => Json.mkObj [("k", "missing")]
+  | .malformed => Json.mkObj [("k", "malformed")]
+
+/-- `q = "table"`: the generated tables; `q = "lookup"`: configuration of one (class, attribute) -/
+def handleC12Cfg (q : String) (j : Json) : Except String Json := do
+  match q with
+  | "table" =>
+    let tables : List (String × Json) := AF.WidthCfg.Generated.named.map fun (n, c) =>
+      (n, Json.arr (c.map fun e => Json.mkObj [("path", String.ofList e.path), ("val", jsonOfCVal e.val)]).toArray)
+    let nonneg : List (String × Json) := AF.WidthCfg.Generated.named.map fun (n, c) =>
+      (n, Json.bool (configAbsNonneg (fun a b => decide (a ≤ b)) 0.0 [c]))
+    pure (Json.mkObj [("tables", Json.mkObj tables), ("abs_nonneg", Json.mkObj nonneg)])
+  | "lookup" =>
+    let cs ← chainOfJson j
+    let pl ← placeOfJson j
+    let cfg := resolveCfg 0.5 cs pl
+    pure (Json.mkObj [
+      ("family", Json.arr ((family pl.cls).map (fun s => Json.str (String.ofList s))).toArray),
+      ("wm_found", jsonOfFound (fun (m : Bool × Float) => Json.mkObj [("relative", m.1), ("value", hexOfFloat m.2)])
+        (widthModifierFound cs pl.cls pl.attr)),
+      ("lim_found", jsonOfFound (fun (l : Float × Float) => Json.mkObj [("lo", hexOfFloat l.1), ("hi", hexOfFloat l.2)])
+        (limitsFound cs pl.cls pl.attr)),
+      ("relative", cfg.relative), ("value", hexOfFloat cfg.value),
+      ("glimits", match cfg.glimits with
+        | some (a, b) => Json.arr #[hexOfFloat a, hexOfFloat b]
+        | none => Json.null),
+      ("ok_with_limits", resolveOk cs true pl), ("ok_no_limits", resolveOk cs false pl)])
+  | "kwargs" =>
+    let t := (← parseNode (← j.getObjVal? "comp")).node
+    let v ← vecOfJson (← j.getObjVal? "v")
+    let keys := uniquePaths t
+    let groups := allPaths t
+    pure (Json.mkObj [
+      ("keys", Json.arr (keys.map jsonOfPath).toArray),
+      ("groups", Json.arr (groups.map (fun g => Json.arr (g.map jsonOfPath).toArray)).toArray),
+      ("vector", Json.arr ((resultVector t v).map (fun o => match o with
+        | some x => Json.str (hexOfFloat x)
+        | none => Json.null)).toArray),
+      ("own", keysOwnGroups keys groups)])
+  | s => throw s!"bad q {s}"
+
 def handleC12 (j : Json) : Except String Json := do
+  if let .ok q := getStr j "q" then
+    return ← handleC12Cfg q j
   let parsed ← parseNode (← j.getObjVal? "comp")
   let t := parsed.node
   let mj ← j.getObjVal? "mode"
@@ -29,7 +108,29 @@ def handleC12 (j : Json) : Except String Json := do
   let olds ← (← getArr j "olds").toList.mapM fun p => do
     pure ({ kind := (← getStr p "kind"), lo := (← getFloat p "lo"), hi := (← getFloat p "hi"),
             mean := (getFloat p "mean").toOption.getD 0.0, sigma := (getFloat p "sigma").toOption.getD 0.0 } : PD Float)
-  let cfgs ← (← getArr j "cfgs").toList.mapM fun c => do
+  -- the configuration of every parameter: looked up by the model (`places` + `chain`), or (older
+  -- replays) handed over resolved (`cfgs`)
+  let noLim := match mode with
+    | .means _ _ nl => nl
+    | _ => true
+  let (places?, chain) ← match j.getObjVal? "places" with
+    | .ok (Json.arr ps) => do
+        let pls ← ps.toList.mapM placeOfJson
+        pure (some pls, ← chainOfJson j)
+    | _ => match j.getObjVal? "classes" with
+      -- class and attribute name of every parameter derived by the model from the composition
+      | .ok (Json.obj kvs) => do
+          let classes ← kvs.toList.mapM fun (k, v) => do pure (k, ← clsTreeOfJson v)
+          let owns ← (← getArr j "owns").toList.mapM fun o => do
+            pure (match getBool o "relative", getFloat o "value" with
+              | .ok r, .ok v => some (r, v)
+              | _, _ => (none : Option (Bool × Float)))
+          pure (some (placesFromTree classes t owns), ← chainOfJson j)
+      | _ => pure (none, [])
+  let cfgArr : Array Json := match j.getObjVal? "cfgs" with
+    | .ok (Json.arr a) => a
+    | _ => #[]
+  let cfgsGiven ← cfgArr.toList.mapM fun c => do
     let gl := match optFloat c "glo", optFloat c "ghi" with
       | some a, some b => some (a, b)
       | _, _ => none
@@ -38,7 +139,18 @@ def handleC12 (j : Json) : Except String Json := do
     let pair ← e.getArr?
     if pair.size != 2 then throw "bad x pair"
     pure ((← floatOfJson pair[0]!), (← floatOfJson pair[1]!))
-  let args := passArgs floatPass mode t olds cfgs xs
+  -- `Result.model` & co.: the vector goes through a path-keyed sample and back
+  let viaKwargs := (getBool j "via_kwargs").toOption.getD false
+  let recovered := resultVector t (xs.map (·.1))
+  if viaKwargs && recovered.any (·.isNone) then
+    return Json.mkObj [("key_error", true)]
+  let xs := if viaKwargs then recovered.map (fun o => (o.getD 0.0, 0.0)) else xs
+  let args := match places? with
+    | some pls => passArgsCfg floatPass 0.5 chain mode t olds pls xs
+    | none => passArgs floatPass mode t olds cfgsGiven xs
+  let cfgOk := match places? with
+    | some pls => pls.all (resolveOk chain (!noLim))
+    | none => true
   let base := (getNat j "base").toOption.getD 1000000
   let r := match mode with
     | .withLimits => renameIds (freshSigma t base) t
@@ -46,6 +158,10 @@ def handleC12 (j : Json) : Except String Json := do
   pure (Json.mkObj [
     ("new", Json.arr (args.map (fun (_, d) => jsonOfPD d)).toArray),
     ("paths", Json.arr ((paths r).map jsonOfPath).toArray),
-    ("count", Json.num ((count r : Nat) : Lean.JsonNumber))])
+    ("count", Json.num ((count r : Nat) : Lean.JsonNumber)),
+    ("cfg_ok", cfgOk),
+    ("place_keys", Json.arr ((placeKeys t).map (fun (c, a) => Json.arr #[match c with
+      | some c => Json.str c
+      | none => Json.null, Json.str a])).toArray)])
 
 end AF.Driver
